@@ -31,6 +31,7 @@ REQUIRED_CLASSES = {
     "random": ["entangling", "measuring", "random_outcome", "det_outcome_1", "op_after_mcr_on_register",
                "wrapper_len>=2", "emitter+photon", "initial_state", "creg_reused", "compiler_reused"],
     "large": ["entangling", "measuring", "random_outcome", "register_index>=10", "emitter+photon"],
+    "incremental": ["recompiled_after_growth", "entangling", "measuring"],
 }
 
 SETTINGS = [0, 1, "probabilistic"]
@@ -97,14 +98,14 @@ def check_order(desc, reported):
     return None
 
 
-def run_config(desc, backend, setting, seed, init, sub="compile", comp=None):
+def run_config(desc, backend, setting, seed, init, sub="compile", comp=None, circ=None):
     import graphiq.backends.compiler_base as cb
     from graphiq.state import QuantumState
 
     n = desc["ne"] + desc["np"]
     icls = "measuring" if any(gc.measuring(d) for d in desc["ops"]) else "unitary"
     site = "%s:%s" % (backend, setting if setting != "probabilistic" else "prob")
-    circ = gc.build(desc)
+    circ = gc.build(desc) if circ is None else circ
     comp = _compilers()[backend]() if comp is None else comp
     comp.measurement_determinism = setting
     v0 = None
@@ -206,6 +207,31 @@ def check_random(case):
     if n_det1:
         cl.append("det_outcome_1")
     return Info(nontrivial=("entangling" in cl and "measuring" in cl), classes=cl)
+
+
+def check_incremental(case, sub="incremental"):
+    """a circuit object grown step by step and compiled after every stage by the same compiler objects: every compile must
+    give the state of the circuit as it is at that moment"""
+    from graphiq.circuit.circuit_dag import CircuitDAG
+
+    desc = case["circ"]
+    ops_ = desc["ops"]
+    cuts = sorted({c for c in (len(ops_) // 3, (2 * len(ops_)) // 3, len(ops_)) if c > 0})
+    circ = CircuitDAG(n_emitter=desc["ne"], n_photon=desc["np"], n_classical=desc["nc"])
+    comps = {b: _compilers()[b]() for b in ("stab", "dm")}
+    done = 0
+    cl = gc.classes_of(desc)
+    for cut in cuts:
+        for d in ops_[done:cut]:
+            guarded(sub, "add", circ.add, gc.make_op(d))
+        done = cut
+        prefix = dict(desc, ops=ops_[:cut])
+        for backend in ("stab", "dm"):
+            for setting in (0, 1):
+                run_config(prefix, backend, setting, case["seed"], None, sub=sub, comp=comps[backend], circ=circ)
+    if len(cuts) >= 2:
+        cl.append("recompiled_after_growth")
+    return Info(nontrivial=("entangling" in cl and len(cuts) >= 2), classes=cl)
 
 
 class PauliRun:
@@ -381,6 +407,9 @@ def enum_small(tier, seed):
 SUBS = [
     Sub("random", check_random, strategy=strat_random, n={"quick": 150, "thorough": 2500},
         doc="random circuits x 2 backends x 3 settings x optional initial state vs dense reference"),
+    Sub("incremental", check_incremental, strategy=lambda tier: st.fixed_dictionaries({
+        "circ": gc.st_circuit(max_q=4, max_len=18, max_c=2), "seed": st.integers(0, 2**31 - 1)}), n={"quick": 40, "thorough": 800},
+        doc="one circuit object grown in three stages, compiled after each stage by the same two compiler objects"),
     Sub("large", check_large, strategy=strat_large, n={"quick": 40, "thorough": 1500},
         doc="stabilizer backend on 9..24 registers (register indices with two digits) x 3 settings vs the Pauli-algebra reference"),
     Sub("small", check_small, enum=enum_small,
